@@ -17,6 +17,7 @@ from nverif.props import deriv_common as dc
 CALIBRATE = bool(os.environ.get('NVERIF_CALIBRATE'))
 FLOOR = 64.0
 ILL_CONDITIONED = 1e4
+DYNAMIC_RANGE = 1e30
 
 
 def tol_for(table, method, n, bucket):
@@ -51,7 +52,7 @@ class C01(Prop):
             self.table = dc.load_constants().get('C01_tol', {})
         except Exception:
             self.table = {}
-        self.constants = {'FLOOR_eps_multiple': FLOOR, 'ILL_CONDITIONED': ILL_CONDITIONED, 'tol_table': 'nverif/constants.json:C01_tol'}
+        self.constants = {'FLOOR_eps_multiple': FLOOR, 'ILL_CONDITIONED': ILL_CONDITIONED, 'DYNAMIC_RANGE': DYNAMIC_RANGE, 'tol_table': 'nverif/constants.json:C01_tol'}
 
     def strategy(self, tier):
         return dc.derivative_case()
@@ -89,6 +90,17 @@ class C01(Prop):
                 if sens[0] > ILL_CONDITIONED * scale0:
                     bucket += '+illcond'
                     break
+        # extreme dynamic range over the sampled discs (e.g. x**216 near 0.014 with steps up to 2):
+        # almost every window is rounding garbage of astronomically different size and the exact
+        # (zero) estimates of the small windows are rejected as outliers; own (weak) class
+        if '+' not in bucket:
+            for j2, a in enumerate(ev.analyses):
+                if ev.hmax[j2] and ev.hmin[j2]:
+                    w_ = dc.stencil_width(method, n)
+                    lb = a.log_bound(0, [w_ * ev.hmin[j2], w_ * ev.hmax[j2]], node=-1)[0]
+                    if np.isfinite(lb[1]) and lb[1] - max(lb[0], -700.0) > math.log(DYNAMIC_RANGE):
+                        bucket += '+range'
+                        break
         ctx.count('k_est=%s' % dc.kbucket(ev.k_est))
         ctx.count('cfg=%s' % bucket)
         tol = tol_for(self.table, method, n, bucket)
@@ -140,7 +152,9 @@ class C01(Prop):
     def finding_key(self, case, v):
         big = max(exprs.max_abs_argument(case['tree'], float(xv), ('tanh',)) for xv in case['x'])
         tiny = min(exprs.min_abs_pow_base(case['tree'], float(xv)) for xv in case['x'])
-        return {'tanh_arg_over_300': bool(big > 300), 'pow_base_below_1e-15': bool(tiny < 1e-15),
+        inv = min(exprs.min_abs_argument(case['tree'], float(xv), ('arcsinh', 'arctanh', 'arctan', 'arcsin'))
+                  for xv in case['x'])
+        return {'tanh_arg_over_300': bool(big > 300), 'pow_base_below_1e-15': bool(tiny < 1e-15), 'inverse_function_arg_below_1e-2': bool(inv < 1e-2),
                 'clause': v.clause, 'method': case['method'], 'n': case['n'],
                 'ops': sorted(exprs.ops(case['tree'])), 'complex_f': case.get('wrap') is not None,
                 'step_kind': case['step']['kind'], 'exception': v.details.get('exception'),
